@@ -33,3 +33,23 @@ add("C09", "fault_enumeration",
     "Histories with several clean Close/Open cycles (after growth, chains, rollover, compaction, recovery, on empty databases, idle sessions; both sync modes); for each Close the admissible power-loss images at the instant Close returned and at every file-system-call boundary of the following Open are opened by the real code and must read back exactly the closed contents.",
     "Power-loss model of the property. fs.File.Sync is taken to be fsync.",
     "DESIGN.md 4/C09")
+add("C08", "fault_enumeration",
+    "fault enumeration at runtime: enumerated damaged tails (all truncation lengths, all single-bit flips, zero runs, garbage, damaged+valid) recovered by the real Open; oracle = independent decoder of the documented format",
+    "Unclean images whose damaged segment ends at chosen offsets relative to 512-byte and 4096-byte boundaries get every tail of the enumerated families appended to the newest or a middle segment; the real recovering Open runs on CrashFS/Mem/OS/OSMMap and its result (contents, truncated segment lengths) must equal what an independent validating decoder computes; every bit flip in key/value/CRC must invalidate.",
+    "The decoder written from docs/design.md defines validity. Tails are enumerated per family (exhaustive for truncation lengths and single-bit flips of the sample records), not over all byte strings.",
+    "DESIGN.md 4/C08")
+add("C14", "exploration",
+    "runtime monitor: poison-on-return file system wrapper, /proc/self/maps address check on the mmap file system, retained-slice re-reads after later mutations/Close with fault capture, input scribbling",
+    "Every slice returned by Get/GetAppend/Next is compared with the reference after all buffers the file system handed out during the call were overwritten, checked not to lie inside a mapping of a database file, retained and re-read after overwrites, deletes, compaction removing its segment, growth and Close; caller inputs and spare capacity are scribbled right after each call and must never show up in later reads, after restart or recovery.",
+    "Poisoning memory obtained from File.Slice after the API call returned is sound because that memory may legitimately vanish on any later call. Only executed paths are covered.",
+    "DESIGN.md 4/C14")
+add("C16", "exploration",
+    "runtime monitor: boundary-value enumeration of key/value lengths x segment capacities with byte-exact read-back (live, recovery, restart), directory fingerprints around rejected Puts, hash-engineered over-long probe keys",
+    "Key and value lengths around 0, sector/buffer boundaries, 64 KiB and 1 MiB (thorough: 512 MiB) are combined with segment capacities that make the record exactly fit, exceed a whole segment or overflow the remaining space; each combination is read back byte-exactly live, after recovery and after restart (with a write after the restart followed by another recovery); rejected over-limit Puts must leave every file byte unchanged; over-long keys engineered to share hash and truncated 16-bit length with a stored key must behave as absent.",
+    "Lengths are sampled at boundaries, not all 2^29. Hash seed pinned for the engineered probes.",
+    "DESIGN.md 4/C16")
+add("C19", "exploration",
+    "runtime resource monitor: differential TotalAlloc / bytes-read / largest-read-request meters around the recovering Open for images with and without a tail whose header claims huge lengths",
+    "For headers claiming key sizes up to 65535 and value sizes up to 2^31-1 (both types, 0-64 trailing bytes) appended to small and medium unclean images, the recovering Open is measured against the same image without the tail on the same file system and pinned seed: extra allocation must stay within 2*tail+32 KiB, extra segment bytes read within 2*tail+64 KiB, no single read request larger than the largest file+64 KiB, contents equal to the valid prefix. No timing is judged.",
+    "TotalAlloc is trusted as allocation meter; claims below the 32 KiB slack are not distinguishable from noise (bounded constant).",
+    "DESIGN.md 4/C19")
